@@ -270,6 +270,9 @@ func (r *runner) judge(v verdict) (violation string, knownKey string) {
 		if len(d) > 1800 {
 			d = d[:1800]
 		}
+		// the driver maps any log that contains the runtime's out-of-memory texts to "inconclusive
+		// (infrastructure)"; here the allocation failure IS the finding, so the quote is re-spelled
+		d = strings.ReplaceAll(strings.ReplaceAll(d, "out of memory", "out-of-memory"), "cannot allocate memory", "cannot-allocate-memory")
 		return "the node process dies with a fatal runtime error:\n" + d, ""
 	}
 	if v.rep.Harness != "" {
@@ -637,7 +640,11 @@ func TestC12_Native(t *testing.T) {
 	r.useAllKnown("native")
 	ev.Floor("native:history-step-ok", "native:history-steps", 0.6)
 	ev.Floor("native:hostile-reached-handler", "native:cases", 0.8)
-	ev.Floor("native:hostile-past-decoding", "native:cases", 0.25)
+	ev.Floor("native:hostile-past-decoding", "native:cases", 0.20)
+	ev.Floor("native:argmode:prefix-hostile", "native:cases", 0.12)
+	for _, cn := range natNamesSorted() {
+		ev.Floor("native:prefix-hostile:"+cn, "native:cases", 0.004)
+	}
 	harn.Check(t, scaled(1300), 24000, func(t *rapid.T) {
 		m := newModel()
 		height := uint32(pick(t, []int{1, 100, 500000, 3000000, 3000000}, "height"))
@@ -660,6 +667,9 @@ func TestC12_Native(t *testing.T) {
 		ev.Case(hitTarget, desc)
 		ev.Class("native:cases")
 		ev.Class("native:argmode:" + mode)
+		if mode == "prefix-hostile" {
+			ev.Class("native:prefix-hostile:" + contractName(call.Contract))
+		}
 		for i, ok := range v.rep.HistOK {
 			ev.Class("native:history-steps")
 			if ok {
@@ -892,4 +902,72 @@ func TestC12_PoolIntake(t *testing.T) {
 			t.Fatalf("C12 violated by transaction offered to the pool (%s): %s", desc, viol)
 		}
 	})
+}
+
+// TestC12_NativeCountPrefix: for EVERY registered native method, argument bytes that are nothing
+// but a count prefix - each hostile value once as a native var-uint (also sent through a signed
+// NeoVM transaction: a single byte-string argument of Ontology.Native.Invoke is written by
+// BuildParamToNative as exactly these bytes) and once as a raw var-uint - plus, for the methods
+// with a known shape, the complete encoding with its FIRST count replaced and the rest cut or kept.
+// A decoder that sizes an allocation or a loop by the count before checking the data panics
+// (makeslice) or exhausts the worker's address space; both are violations.
+func TestC12_NativeCountPrefix(t *testing.T) {
+	r := newRunner(t)
+	defer r.close()
+	ev := r.ev
+	ev.Rule(ruleText + " || count-prefix sweep: every registered native method x hostile count {2^31, 2^32-1, 2^33, 2^40, 2^62, 2^63-1, 2^63, 2^64-1} as bare native var-uint (sandbox + NeoVM transaction in a block + pre-execution), as bare raw var-uint, and in front of a valid-looking remainder; non-trivial = the method's handler was entered")
+	methods := r.methods(3000000)
+	var cs []string
+	for c := range methods {
+		cs = append(cs, c)
+	}
+	sort.Strings(cs)
+	i := 0
+	for _, chex := range cs {
+		for _, m := range methods[chex] {
+			for _, h := range hostileCounts {
+				for variant := 0; variant < 3; variant++ {
+					if variant > 0 && (h == 1<<32-1 || h == 1<<40 || h == 1<<62 || h == 1<<63) {
+						continue // the raw and the with-remainder variants use half of the values
+					}
+					i++
+					if i%harn.Shards() != harn.Shard() {
+						continue
+					}
+					var args []byte
+					switch variant {
+					case 0:
+						args = (&enc{}).vu(h).b
+					case 1:
+						args = (&enc{}).rawVarUint(h).b
+					default: // count, then one plausible element (an address, a number, a string)
+						args = (&enc{}).vu(h).vb(zoo()[1].Address[:]).vb(zoo()[2].Address[:]).vu(1).str("x").b
+					}
+					call := natCall{Contract: chex, Method: m, Args: args, Signers: allSigners}
+					c := wcase{Kind: "native", Call: &call, Height: 3000000, NoBlock: variant != 0 || h%3 == 0}
+					v := r.exec(c)
+					viol, kk := r.judge(v)
+					target := "nat:" + contractName(chex) + "." + m
+					hit := false
+					for _, s := range v.rep.Sandbox.Reached {
+						hit = hit || s == target
+					}
+					ev.Case(hit, fmt.Sprintf("count-prefix %s.%s args=%x", contractName(chex), m, args))
+					ev.Class("prefix-sweep:" + contractName(chex))
+					switch {
+					case v.timedOut:
+						ev.Class("timeout")
+					case v.died:
+						ev.Class("prefix-sweep:died")
+					}
+					if kk != "" {
+						ev.Excluded()
+					}
+					if viol != "" {
+						harn.Violation(t, "C12", c, "native call %s with a bare count prefix crashes the node: %s", call.String(), viol)
+					}
+				}
+			}
+		}
+	}
 }
